@@ -165,10 +165,11 @@ def normalizeKeys : Keys → List Path
   | .empty => []
   | .multi ks => ks
 
-/-- `_default_tree(key_path, value)` (tree.py:268-283, with the SELF repair). -/
+/-- `_default_tree(key_path, value)` (tree.py:268-283, with the SELF/SKIP repair). -/
 def defaultTree (h : Heap) : Path → Ref → Res Ref
   | [], v => (h, .ok v)
   | .self :: _, v => (h, .ok v)
+  | .skip :: _, _ => let (h1, r) := alloc h .null; (h1, .ok r)   -- repaired: `return NullMap()`
   | .idx i :: rest, v =>
     if i = 0 then
       match defaultTree h rest v with
